@@ -168,6 +168,16 @@ def concurrent(ctx, prefixes, admin=False, tag="conc"):
 def replay(ctx, path, prefixes):
     rec = vlib.json.load(open(path))
     sc = rec["scenario"]
+    if rec.get("component") == "rebaladmin-stress":
+        tp = vlib.os.path.join(ctx.work, "trace-replay.ndjson")
+        p = vlib.run_harness(ctx, ["stress", "rebaladmin", "-trace", tp, "-seed", str(rec.get("seed", 1)),
+                                   "-cfg", vlib.json.dumps(sc["cfg"]["stress"])])
+        res = vlib.validate_trace(ctx, "Trace_Conc", tp, "replay")
+        if res["bad"]:
+            print("VIOLATION property=%s replay=%s" % (ctx.pid, path))
+            return 1
+        print("replay: the concurrent driver did not reproduce the report in this run")
+        return 0
     if rec.get("component") == "rr-stress":
         print("replay of a concurrent history: re-validating the recorded events")
         tp = vlib.os.path.join(ctx.work, "trace-replay.ndjson")
